@@ -448,8 +448,9 @@ void exec_step(const J &st, int incb) {
     Tok *tok = new_tok(st, op.c_str());
     int  fam = (int)st["family"].num(4);
     int  a   = (int)st["addr"].num(1);
-    ev("{\"e\":\"call\",\"api\":\"%s\",\"t\":%d,\"addr\":%d,\"family\":%d,\"now\":%lld,\"depth\":%d,\"incb\":%d}", op.c_str(), tok->id, a,
-       fam, g_now_ms, g_depth, incb);
+    int  lng = (int)st["long"].num(0);   // IPv6 only: an address whose text form is long (2001:db8:1111:2222:3333:4444:5555:<a>)
+    ev("{\"e\":\"call\",\"api\":\"%s\",\"t\":%d,\"addr\":%d,\"family\":%d,\"long\":%d,\"now\":%lld,\"depth\":%d,\"incb\":%d}", op.c_str(), tok->id, a,
+       fam, lng, g_now_ms, g_depth, incb);
     g_depth++;
     if (fam == 4) {
       struct sockaddr_in sin;
@@ -467,6 +468,10 @@ void exec_step(const J &st, int incb) {
       sin6.sin6_port   = htons((unsigned short)st["port"].num(0));
       unsigned char *b = (unsigned char *)&sin6.sin6_addr;
       b[0] = 0x20; b[1] = 0x01; b[14] = (unsigned char)(a >> 8); b[15] = (unsigned char)a;
+      if (lng) {
+        static const unsigned char mid[12] = {0x0d, 0xb8, 0x11, 0x11, 0x22, 0x22, 0x33, 0x33, 0x44, 0x44, 0x55, 0x55};
+        memcpy(b + 2, mid, 12);
+      }
       if (op == "ghba") ares_gethostbyaddr(g_channel, &sin6.sin6_addr, sizeof sin6.sin6_addr, AF_INET6, host_cb, tok);
       else ares_getnameinfo(g_channel, (struct sockaddr *)&sin6, sizeof sin6, (int)st["flags"].num(ARES_NI_LOOKUPHOST), nameinfo_cb, tok);
     }
@@ -721,7 +726,8 @@ void run_history(const J &hist) {
     hosts = std::string(td ? td : "/tmp") + "/sim_hosts." + std::to_string((long)getpid());
     FILE *hf = fopen(hosts.c_str(), "w");
     if (hf) {
-      fputs("10.1.2.3 h1.test\n10.1.2.4 h1.test\nfd00::7 h1.test\n10.1.2.5 h2.test alias2.test\n", hf);
+      fputs("10.1.2.3 h1.test\n10.1.2.4 h1.test\nfd00::7 h1.test\n10.1.2.5 h2.test alias2.test\n"
+            "2001:db8:1111:2222:3333:4444:5555:7 long6.test\n2001::6 short6.test\n", hf);
       fclose(hf);
     }
   }
@@ -733,10 +739,11 @@ void run_history(const J &hist) {
   }
   opts.sock_state_cb = sock_state_cb; optmask |= ARES_OPT_SOCK_STATE_CB;
   int rc = ares_init_options(&g_channel, &opts, optmask);
-  if (viafile) unlink(resolv.c_str());
+  std::string resolv_tmp = viafile ? resolv : "";   // kept until the end of the history: ares_reinit() reads it again
   std::string hosts_tmp = g_cfg["hostsfile"].num() ? hosts : "";
   if (rc != ARES_SUCCESS) {
     ev("{\"e\":\"initfail\",\"rc\":\"%s\"}", stname(rc));
+    if (!resolv_tmp.empty()) unlink(resolv_tmp.c_str());
     g_channel = nullptr;
     ares_library_cleanup();
     ev("{\"e\":\"end\",\"nocb\":[],\"frames\":0,\"leaked\":%ld,\"allocs\":%ld}", g_live_allocs, g_alloc_count);
@@ -748,6 +755,7 @@ void run_history(const J &hist) {
                                  : ares_set_servers_csv(g_channel, servers_csv(g_nservers, g_cfg["v6"].num() != 0).c_str());
   if (src != ARES_SUCCESS) {  // set-up itself failed (allocation failure injection): treated like a failed initialisation
     ev("{\"e\":\"initfail\",\"rc\":\"%s\"}", stname(src));
+    if (!resolv_tmp.empty()) unlink(resolv_tmp.c_str());
     ares_destroy(g_channel);
     g_channel = nullptr;
     ares_library_cleanup();
@@ -795,6 +803,7 @@ void run_history(const J &hist) {
   }
   ares_library_cleanup();
   if (!hosts_tmp.empty()) unlink(hosts_tmp.c_str());
+  if (!resolv_tmp.empty()) unlink(resolv_tmp.c_str());
   if (!aliases_tmp.empty()) { unlink(aliases_tmp.c_str()); unsetenv("HOSTALIASES"); }
   ares_verif_now_cb  = nullptr;
   ares_verif_rand_cb = nullptr;
